@@ -1,7 +1,7 @@
 #!/usr/bin/env python3
 """Prepare a round of sub-agent work: scratch worktrees of /repo and one prompt file per property.
 
-usage: mk_prompts.py seed    <base dir> <flavour: unusual|coordinated|disguised|feature|subtle|modern|perf|edge|history|cooperating|stdlib|mixed> [Cxx ...]
+usage: mk_prompts.py seed    <base dir> <flavour: unusual|coordinated|disguised|feature|subtle|modern|perf|edge|history|cooperating|stdlib|regress|decl|mixed> [Cxx ...]
        mk_prompts.py neutral <base dir> <flavour: small|medium|large|modern|perf> [Cxx ...]
 
 Each sub-agent gets ONLY the text of one property (from properties.jsonl) and its own scratch git worktree
@@ -63,6 +63,8 @@ FLAVOURS["history"] = '''Flavour for this property: wrong only for a particular 
 FLAVOURS["cooperating"] = '''Flavour for this property: change A consists of TWO COOPERATING SITES that each look fine alone. It has two hunks in different functions (or files): a helper and one of its callers, a constructor and a consumer of the constructed object, a constant / table and the code that uses it, a setter and a getter, a producer of a slice and the code that keeps it. Each hunk taken by itself is behaviour-preserving (or even an improvement) - e.g. a helper now returns a sub-slice of its argument "because every caller copies anyway" and, elsewhere, one caller drops its "redundant" copy; a length check is moved from the callee into the callers and one caller is forgotten; a default is changed in a constructor and a consumer still assumes the old one; a field becomes lazily initialised and one reader bypasses the accessor; an error is now reported through a second return value and one caller ignores it - and only the combination breaks the property. Say in NOTES.md why each hunk alone is harmless. Change B manifests only under a FAULT or a particular INTERLEAVING, if the property admits one: the random source or a callee failing at a particular point, an error path that leaves an object half-updated or returns a nil error together with a partial result, a failed verification after which state was already modified, a recover() that swallows something, two goroutines using independent objects that now share something hidden (a package-level scratch buffer, cache, sync.Pool entry, lazily initialised table, a hash object stored in a registry). If the property admits neither, make B a second two-site change. 4-40 changed lines each.'''
 
 FLAVOURS["stdlib"] = '''Flavour for this property: a LIBRARY CALL swapped for a NEAR-EQUIVALENT. Each change replaces (or introduces) a call into the Go standard library or into github.com/pkg/errors by another one that a maintainer would consider equivalent or better, and that IS equivalent except in a corner which breaks the property: io.ReadFull versus Read / io.ReadAtLeast / bufio Peek+Discard; rand.Read versus io.ReadFull(rand.Reader) versus rand.Int versus math/rand; big.Int.Bytes versus FillBytes versus Text/SetString; bytes.Equal versus hmac.Equal versus subtle.ConstantTimeCompare versus bytes.Compare versus bytes.HasPrefix; append versus copy versus bytes.Buffer versus bytes.Clone / slices.Clone / slices.Grow / slices.Concat; sort.Slice versus sort.SliceStable versus slices.Sort versus a map range; binary.BigEndian.PutUintN / UintN versus binary.Write / binary.Read versus AppendUintN versus LittleEndian or a different width; hash.Hash.Sum(nil) versus Sum(buf) versus sha256.Sum256; hmac.New kept and Reset versus created anew; strings / bytes conversion helpers (TrimRight, Trim, Fields, ToLower, EqualFold, utf8 handling) applied to octet strings; errors.Wrap / Wrapf / WithMessage / fmt.Errorf / errors.Join on a possibly nil error; strconv / fmt formatting used to build a registry key; copy-on-assign of arrays versus slices; min / max / clear builtins. The diff should look like a modernisation or simplification commit (2-25 changed lines); say in NOTES.md exactly which documented difference between the two calls is responsible.'''
+
+FLAVOURS["decl"] = '''Flavour for this property: the change is in a DECLARATION, not in the anchored function's statements. Do not edit a single statement inside the function(s) the property is anchored in. Break the property from a distance, through something those functions depend on: the value of a constant or the order of an iota block; the type, width or signedness of a struct field, of a named type or of a constant; the size of an array type; an entry of a package-level table, map or registry (a key, a length, a priority, a constructor stored under the wrong key, two entries swapped); what an init() function registers, and in which order; the method set of a type (value versus pointer receiver, a method added or removed so that a type switch or interface assertion now goes another way, an embedded type); the zero value or default a constructor in ANOTHER file fills in; a package-level variable that becomes shared where each call had its own; a small helper in another file or package that the anchored code calls (its result for one input, its handling of nil or empty, whether it copies). The diff should read like a tidy-up of declarations (renumbering, re-typing, re-ordering, de-duplicating a table, making a helper "more general"). 1-20 changed lines. NOTES.md must give the chain from the changed declaration to the property's behaviour.'''
 
 FLAVOURS["regress"] = '''Flavour for this property: a REGRESSION OF SOMETHING THAT WAS FIXED BEFORE, or its ANALOGUE IN A SIBLING. Run `git log --oneline -25` and `git show <commit>` for the commits whose message starts with "fix:" - each repaired a defect of this library (an index or slice past the end, 8- or 16-bit wrap-around in a length check, a mask one bit too narrow, a value never stored, reserved bits not ignored, attributes not consumed, padding kept, a stride that disagrees with the encoder, a truncated message accepted). Change A must bring one of these defects back IN PART - for a narrower set of inputs than the original defect, through a different expression than the one the fix touched (for instance by changing the type of a variable the fixed check relies on, by moving the check behind an early exit, by recomputing the checked quantity slightly differently afterwards, by "simplifying" two checks into one that is weaker for one combination), so that the tests added with the fix (if any) and the rest of the suite still pass. Change B must introduce the ANALOGOUS defect in a sibling that was never affected (another payload type, the encoder instead of the decoder, the Child SA path instead of the IKE SA path, the responder arm instead of the initiator arm, another EAP-AKA' attribute), again only for a narrow input class. If no fix commit is related to this property at all, derive both changes from the fix that is closest in kind. 2-30 changed lines each; NOTES.md must name the fix commit the change is derived from.'''
 
